@@ -75,13 +75,13 @@ func ToInt(i interface{}) (interface{}, error) {
 	case uint8:
 		return int(val), nil
 	case float64:
-		if val > math.MaxInt || val < math.MinInt {
+		if !(val >= math.MinInt && val < math.MaxInt+1) {
 			return nil, fmt.Errorf("%w: %T(%v)", ErrUnableToCastToInt, i, i)
 		}
 
 		return int(val), nil
 	case float32:
-		if val > math.MaxInt || val < math.MinInt {
+		if !(val >= math.MinInt && val < math.MaxInt+1) {
 			return nil, fmt.Errorf("%w: %T(%v)", ErrUnableToCastToInt, i, i)
 		}
 
@@ -142,13 +142,13 @@ func ToInt64(i interface{}) (interface{}, error) {
 	case uint8:
 		return int64(val), nil
 	case float64:
-		if val > math.MaxInt64 || val < math.MinInt64 {
+		if !(val >= math.MinInt64 && val < math.MaxInt64+1) {
 			return nil, fmt.Errorf("%w: %T(%v)", ErrUnableToCastToInt64, i, i)
 		}
 
 		return int64(val), nil
 	case float32:
-		if val > math.MaxInt64 || val < math.MinInt64 {
+		if !(val >= math.MinInt64 && val < math.MaxInt64+1) {
 			return nil, fmt.Errorf("%w: %T(%v)", ErrUnableToCastToInt64, i, i)
 		}
 
@@ -220,13 +220,13 @@ func ToInt32(i interface{}) (interface{}, error) {
 	case uint8:
 		return int32(val), nil
 	case float64:
-		if val > math.MaxInt32 || val < math.MinInt32 {
+		if !(val >= math.MinInt32 && val < math.MaxInt32+1) {
 			return nil, fmt.Errorf("%w: %T(%v)", ErrUnableToCastToInt32, i, i)
 		}
 
 		return int32(val), nil
 	case float32:
-		if val > math.MaxInt32 || val < math.MinInt32 {
+		if !(val >= math.MinInt32 && val < math.MaxInt32+1) {
 			return nil, fmt.Errorf("%w: %T(%v)", ErrUnableToCastToInt32, i, i)
 		}
 
@@ -306,13 +306,13 @@ func ToInt16(i interface{}) (interface{}, error) {
 	case uint8:
 		return int16(val), nil
 	case float64:
-		if val > math.MaxInt16 || val < math.MinInt16 {
+		if !(val >= math.MinInt16 && val < math.MaxInt16+1) {
 			return nil, fmt.Errorf("%w: %T(%v)", ErrUnableToCastToInt16, i, i)
 		}
 
 		return int16(val), nil
 	case float32:
-		if val > math.MaxInt16 || val < math.MinInt16 {
+		if !(val >= math.MinInt16 && val < math.MaxInt16+1) {
 			return nil, fmt.Errorf("%w: %T(%v)", ErrUnableToCastToInt16, i, i)
 		}
 
@@ -400,13 +400,13 @@ func ToInt8(i interface{}) (interface{}, error) {
 
 		return int8(val), nil
 	case float64:
-		if val > math.MaxInt8 || val < math.MinInt8 {
+		if !(val >= math.MinInt8 && val < math.MaxInt8+1) {
 			return nil, fmt.Errorf("%w: %T(%v)", ErrUnableToCastToInt8, i, i)
 		}
 
 		return int8(val), nil
 	case float32:
-		if val > math.MaxInt8 || val < math.MinInt8 {
+		if !(val >= math.MinInt8 && val < math.MaxInt8+1) {
 			return nil, fmt.Errorf("%w: %T(%v)", ErrUnableToCastToInt8, i, i)
 		}
 
